@@ -29,6 +29,33 @@ class Boom(RuntimeError):
     pass
 
 
+class BoomOS(OSError):
+    pass
+
+
+class BoomValue(ValueError):
+    pass
+
+
+class BoomKey(KeyError):
+    pass
+
+
+class BoomPlain(Exception):
+    pass
+
+
+EXC = {"runtime": Boom, "os": BoomOS, "value": BoomValue, "key": BoomKey, "plain": BoomPlain, "builtin-os": OSError, "builtin-value": ValueError, "empty": None}
+
+
+def exc_class(name):
+    if name == "empty":
+        import queue
+
+        return queue.Empty
+    return EXC.get(name, Boom)
+
+
 def judge(desc, status, exc, hang):
     if status == "returned":
         raise Violation("error-swallowed", f"an item failed but the operation returned normally; case {desc}")
@@ -54,11 +81,73 @@ def run(fn, k, sched, make_target):
     return res["status"], res["exc"], res["hang"], w
 
 
+def exec_multi_tan(case, k, classes, desc):
+    import os
+    import warnings
+    from toasty import collection, multi_tan
+    from toasty.builder import Builder
+    from toasty.pyramid import PyramidIO
+    from ..core import fresh_dir
+    from .. import mtgen
+
+    E = exc_class(case.get("exc", "runtime"))
+    with fresh_dir("c19mt-") as d:
+        ind = os.path.join(d, "in")
+        os.makedirs(ind)
+        paths, exp, box = mtgen.write_inputs(case, ind)
+        # how many tile updates does the whole job make?
+        counter = {"n": 0, "fail_at": None}
+
+        class CountingPio(PyramidIO):
+            def __deepcopy__(self, memo):
+                return self
+
+            def update_image(self, pos, **kw):
+                counter["n"] += 1
+                if counter["n"] == counter["fail_at"]:
+                    raise E(f"injected failure at tile update #{counter['n']} ({tuple(pos)})")
+                return PyramidIO.update_image(self, pos, **kw)
+
+        def prepare(sub):
+            pio = CountingPio(os.path.join(d, sub), default_format=case["tile_format"])
+            with warnings.catch_warnings():
+                warnings.simplefilter("ignore")
+                proc = multi_tan.MultiTanProcessor(collection.load(paths))
+                proc.compute_global_pixelization(Builder(pio))
+            return pio, proc
+
+        pio, proc = prepare("count")
+        with warnings.catch_warnings():
+            warnings.simplefilter("ignore")
+            proc.tile(pio, parallel=1)
+        total = counter["n"]
+        counter["n"] = 0
+        counter["fail_at"] = 1 + case["fail_idx"] % total
+        pio, proc = prepare("run")
+
+        def make_target(w):
+            def go():
+                with warnings.catch_warnings():
+                    warnings.simplefilter("ignore")
+                    proc.tile(pio, parallel=k)
+
+            return go
+
+        status, exc, hang, w = run(None, k, case.get("sched"), make_target)
+    desc["failing_update"] = counter["fail_at"]
+    judge(desc, status, exc, hang)
+    classes.append("inputs%d" % len(case["rects"]))
+    return Outcome(classes=classes, nontrivial=k >= 2 and counter["fail_at"] > 1, info={"failing_update": counter["fail_at"], "of": total})
+
+
 def exec_case(case):
     stage = case["stage"]
     k = case.get("k", 1)
     desc = {a: b for a, b in case.items() if a != "sched"}
-    classes = [stage, f"k{k}"]
+    classes = [stage, f"k{k}", "exc:" + case.get("exc", "runtime")]
+    E = exc_class(case.get("exc", "runtime"))
+    if stage == "multi_tan":
+        return exec_multi_tan(case, k, classes, desc)
     if stage in ("walk", "leaves"):
         ref = scen.ref_of(case)
         order = [p for p in ref.order if p in (ref.ops if stage == "walk" else ref.leaves)]
@@ -67,7 +156,7 @@ def exec_case(case):
         fail = order[case["fail_idx"] % len(order)]
 
         def make_target(w):
-            rec = scen.Recorder(w, fail_at=fail, fail_exc=Boom)
+            rec = scen.Recorder(w, fail_at=fail, fail_exc=E)
             if stage == "walk":
                 return lambda: scen.make_pyramid(case).walk(rec.walk_cb, parallel=k)
             return lambda: scen.make_pyramid(case).visit_leaves(rec.leaf_cb, parallel=k)
@@ -90,7 +179,7 @@ def exec_case(case):
             def read_image(self, pos, **kw):
                 img = FakePio.read_image(self, pos, **kw)
                 if tuple(pos) == fail:
-                    raise Boom(f"injected I/O failure at {fail}")
+                    raise E(f"injected I/O failure at {fail}")
                 return img
 
         def make_target(w):
@@ -109,8 +198,15 @@ def exec_case(case):
 
 @st.composite
 def strat(draw, tier):
-    stage = draw(st.sampled_from(["walk", "walk", "leaves", "leaves", "transform"]))
-    if stage == "transform":
+    stage = draw(st.sampled_from(["walk", "walk", "leaves", "leaves", "transform", "transform", "multi_tan"]))
+    if stage == "multi_tan":
+        from .. import mtgen
+
+        case = draw(mtgen.mosaic_cases(tier, max_size=300, max_inputs=6))
+        case["stage"] = stage
+        if case["k"] > 1:
+            case["sched"] = draw(scen.schedules(max_size=100))
+    elif stage == "transform":
         k = draw(st.sampled_from([1, 2, 2, 3, 4, 8]))
         case = {"stage": stage, "depth": draw(st.integers(0, 2 if tier == "quick" else 3)), "k": k}
         if k > 1:
@@ -119,6 +215,7 @@ def strat(draw, tier):
         case = draw(scen.pyramid_cases(3 if tier == "quick" else 5))
         case["stage"] = stage
     case["fail_idx"] = draw(st.integers(0, 2000))
+    case["exc"] = draw(st.sampled_from(["runtime", "runtime", "os", "value", "key", "plain", "builtin-os", "builtin-value", "empty"]))
     return case
 
 
@@ -131,6 +228,6 @@ PARTS = [
         shards={"quick": 16, "thorough": 16},
         budget_s={"quick": 60, "thorough": 1200},
         engine="A / serial for k=1",
-        describe="walk, visit_leaves and u8_to_rgb with exactly one failing item x k x schedules",
+        describe="walk, visit_leaves, u8_to_rgb and multi-image tiling with exactly one failing item (exception class generated: RuntimeError, OSError, ValueError, KeyError, queue.Empty, ...) x k x schedules",
     ),
 ]
